@@ -278,6 +278,7 @@ class Engine:
         self.max_paths = max_paths
         self.unwind = unwind
         self.solver = z3.Solver()
+        self._pc_stack = []
         self.nqueries = 0
         self.solver_time = 0.0
         self.func_addr = {}
@@ -461,17 +462,33 @@ class Engine:
         return off
 
     # ------------------------------------------------------------------ solver
+    def _sync(self, pc):
+        """Bring the solver's assertion stack in line with the path condition `pc` (shared prefixes of
+        neighbouring DFS states are not re-asserted)."""
+        stk = self._pc_stack
+        k = 0
+        n = min(len(stk), len(pc))
+        while k < n and stk[k] is pc[k]:
+            k += 1
+        if len(stk) > k:
+            self.solver.pop(len(stk) - k)
+            del stk[k:]
+        for c in pc[k:]:
+            self.solver.push()
+            self.solver.add(c)
+            stk.append(c)
+
     def feasible(self, st, extra=None):
         import time
         t0 = time.time()
         s = self.solver
-        s.push()
-        for c in st.pc:
-            s.add(c)
+        self._sync(st.pc)
         if extra is not None:
+            s.push()
             s.add(extra)
         r = s.check()
-        s.pop()
+        if extra is not None:
+            s.pop()
         self.nqueries += 1
         self.solver_time += time.time() - t0
         if r == z3.unknown:
@@ -480,9 +497,8 @@ class Engine:
 
     def model(self, st, extra=None):
         s = self.solver
+        self._sync(st.pc)
         s.push()
-        for c in st.pc:
-            s.add(c)
         if extra is not None:
             s.add(extra)
         r = s.check()
@@ -495,21 +511,21 @@ class Engine:
         """All feasible concrete values of term v under st.pc (<= limit)."""
         vals = []
         s = self.solver
+        self._sync(st.pc)
         s.push()
-        for c in st.pc:
-            s.add(c)
-        while True:
-            r = s.check()
-            self.nqueries += 1
-            if r != z3.sat:
-                break
-            x = s.model().eval(v, model_completion=True).as_long()
-            vals.append(x)
-            if len(vals) > limit:
-                s.pop()
-                raise Unsupported('more than %d feasible values for an address/selector %s' % (limit, v))
-            s.add(v != x)
-        s.pop()
+        try:
+            while True:
+                r = s.check()
+                self.nqueries += 1
+                if r != z3.sat:
+                    break
+                x = s.model().eval(v, model_completion=True).as_long()
+                vals.append(x)
+                if len(vals) > limit:
+                    raise Unsupported('more than %d feasible values for an address/selector %s' % (limit, v))
+                s.add(v != x)
+        finally:
+            s.pop()
         return vals
 
     # ------------------------------------------------------------------ memory access
@@ -948,23 +964,26 @@ class Engine:
         def mix(vals):
             """ite over the path conditions, grouping equal values."""
             first = vals[0]
+            k0 = self._vkey(first)
             same = True
             for v in vals[1:]:
-                if not self._same(first, v):
+                if v is not first and self._vkey(v) != k0:
                     same = False
                     break
             if same:
                 return first
             if isinstance(first, tuple):
                 return tuple(mix([v[i] for v in vals]) for i in range(len(first)))
+            gmap = {}
             groups = []
             for v, c in zip(vals, conds):
-                for g_ in groups:
-                    if self._same(g_[0], v):
-                        g_[1].append(c)
-                        break
+                key_ = self._vkey(v)
+                g_ = gmap.get(key_)
+                if g_ is None:
+                    g_ = gmap[key_] = (v, [c])
+                    groups.append(g_)
                 else:
-                    groups.append((v, [c]))
+                    g_[1].append(c)
             # width
             bits = None
             isbool = False
@@ -1116,7 +1135,15 @@ class Engine:
         if isinstance(a, tuple) or isinstance(b, tuple):
             return (isinstance(a, tuple) and isinstance(b, tuple) and len(a) == len(b)
                     and all(Engine._same(x, y) for x, y in zip(a, b)))
-        return z3.eq(a, b)
+        return a.get_id() == b.get_id()
+
+    @staticmethod
+    def _vkey(v):
+        if isinstance(v, int):
+            return ('i', v)
+        if isinstance(v, tuple):
+            return ('t',) + tuple(Engine._vkey(x) for x in v)
+        return ('z', v.get_id())
 
     def run(self, st):
         """Run st until it terminates (return None) or forks (return list of states)."""
